@@ -223,7 +223,10 @@ class LogFile(BaseLogFile):
         Return sorted list of integers - the old logs' identifiers.
         """
         result = []
-        for name in glob.glob("%s.*" % self.path):
+        # The path is a name, not a pattern: escape it, or a log called e.g.
+        # "app[1].log" (or kept in a directory "logs[1]") would never see its
+        # rotated files and rotate() would overwrite "app[1].log.1" each time.
+        for name in glob.glob("%s.*" % glob.escape(self.path)):
             try:
                 counter = int(name.split(".")[-1])
                 if counter:
